@@ -34,9 +34,20 @@ def _load():
             importlib.import_module(f"bounded.{m.name}")
 
 
+def enabled():
+    """Stand-ins take part in checks only once they are listed in bounded/enabled.txt (reviewed, quiet on the unchanged tree)."""
+    from pathlib import Path
+
+    p = Path(__file__).with_name("enabled.txt")
+    if not p.exists():
+        return set()
+    return {l.strip() for l in p.read_text().splitlines() if l.strip() and not l.startswith("#")}
+
+
 def standins_for(pid):
     _load()
-    return [dict(name=s["name"], bound=s["bound"]) for s in STANDINS.values() if pid in s["props"]]
+    en = enabled()
+    return [dict(name=s["name"], bound=s["bound"]) for s in STANDINS.values() if pid in s["props"] and s["name"] in en]
 
 
 def run_standin(name, pid, tier, seed):
